@@ -4,7 +4,7 @@ import json, subprocess
 src = json.load(open('/verif/manifest_src.json'))
 props = [json.loads(l)['id'] for l in open('/verif/properties.jsonl')]
 hooks = subprocess.run(['git','-C','/repo','log','--format=%H %s'],capture_output=True,text=True).stdout.splitlines()
-hook_commits = [l.split()[0] for l in hooks if ' verif hook:' in l]
+hook_commits = [l.split()[0] for l in hooks if ' verif hook:' in l or ' verif: ' in l]
 checks = []
 for pid in props:
     c = src['checks'].get(pid)
